@@ -6,7 +6,7 @@
 From Coq Require Import NArith List Bool.
 From Pi2 Require Import ML.Syntax ML.Subst ML.Machine
   MM16.Verify MM16.Convert MM16.Instr MM16.Translate MM16.Fragment
-  MM16.InstrFacts MM16.SimFacts MM16.Sim MM16.Step MM16.Rules MM16.Compose MM16.Main.
+  MM16.InstrFacts MM16.SimFacts MM16.Sim MM16.Step MM16.Rules MM16.Compose MM16.Main MM16.Compress.
 Import ListNotations.
 Open Scope N_scope.
 
@@ -99,6 +99,19 @@ Theorem C16_translate_bytes d target g c p :
   small g && small c && small p = true -> translate d target = Some (g, c, p).
 Proof. exact (translate_correct_small d target g c p). Qed.
 
+(** ** 3. compression layout is irrelevant: two databases with the same skeleton (they differ only in the
+    proof texts of their [$p] statements: label list, Z marks, back-references) publish byte-identical
+    Gamma and Claim files, and both proofs are accepted *)
+Theorem C16_compression_irrelevant d1 d2 target :
+  skeleton d1 = skeleton d2 ->
+  mm_verify d1 target = true -> mm_verify d2 target = true ->
+  in_fragment d1 target = true -> in_fragment d2 target = true ->
+  exists g c p1 p2 s1 s2,
+    translate_raw false d1 target = Some (g, c, p1) /\ translate_raw false d2 target = Some (g, c, p2) /\
+    verify guards_sound g c p1 = Some s1 /\ verify guards_sound g c p2 = Some s2.
+Proof. exact (compression_irrelevant d1 d2 target). Qed.
+Print Assumptions C16_compression_irrelevant.
+
 (** ** 4. non-vacuity and anchors: the shipped impreflex-compressed.mm *)
 Definition ph (n:N) := TVar n.
 Definition d_impreflex (steps:list N) : db :=
@@ -122,6 +135,20 @@ Example C16_impreflex_bytes :
         [137;0;137;0;137;0;5;28;5;28;29;0;137;0;29;0;137;0;5;5;29;1;29;0;5;137;0;29;0;137;0;13;26;3;2;1;0;
          137;0;29;0;12;26;2;1;0;21;28;27;27;27;29;2;137;0;137;0;12;26;2;1;0;21;28;27;27;27;29;3;30]).
 Proof. vm_compute. reflexivity. Qed.
+
+(** the same proof without Z marks (impreflex.mm layout): same Gamma/Claim bytes by [C16_compression_irrelevant] *)
+Definition steps_noz : list N := [1;1;1;2;2;1;1;2;1;1;1;2;1;2;2;1;1;1;2;2;1;1;2;2;1;1;1;2;1;5;1;1;1;2;3;4;1;1;3;4].
+Definition d_impreflex_noz : db :=
+  [ IFloat (LOther 0) 0 0; IFloat (LOther 1) 0 1; IFloat (LOther 2) 0 2;
+    IAx (mkA LImpIsPattern [] (0, [timp (ph 0) (ph 1)]));
+    IAx (mkA LProp1 [] (1, [timp (ph 0) (timp (ph 1) (ph 0))]));
+    IAx (mkA LProp2 [] (1, [timp (timp (ph 0) (timp (ph 1) (ph 2))) (timp (timp (ph 0) (ph 1)) (timp (ph 0) (ph 2)))]));
+    IAx (mkA LMp [(LOther 3, (1, [timp (ph 0) (ph 1)])); (LOther 4, (1, [ph 0]))] (1, [ph 1]));
+    IProv (mkA (LOther 5) [] (1, [timp (ph 0) (ph 0)])) [LImpIsPattern; LProp1; LMp; LProp2] steps_noz ].
+Example C16_compression_hyps :
+  skeleton (d_impreflex steps_z) = skeleton d_impreflex_noz /\
+  mm_verify d_impreflex_noz (LOther 5) = true /\ in_fragment d_impreflex_noz (LOther 5) = true.
+Proof. split; [reflexivity|]. split; vm_compute; reflexivity. Qed.
 
 (** a database with a declared notation, an n-ary constructor and a rule with two essential hypotheses *)
 Definition d_rule : db :=
